@@ -562,6 +562,9 @@ def ssa_straightline(fn: ast.FunctionDef) -> ast.FunctionDef:
                 s.value is not None:
             top_stores[s.target.id] = top_stores.get(s.target.id, 0) + 1
     all_stores = _count_stores(fn)
+    for n_ in ast.walk(fn):       # a bare annotation `x: T` declares, it does not assign
+        if isinstance(n_, ast.AnnAssign) and n_.value is None and isinstance(n_.target, ast.Name):
+            all_stores[n_.target.id] = all_stores.get(n_.target.id, 1) - 1
     cands = {n for n, k in top_stores.items()
              if k >= 2 and all_stores.get(n) == k and n not in params}
     for n in ast.walk(fn):
